@@ -1,7 +1,7 @@
 (* Proofs/Cache.v — C14: invariants of the cache state machine over every history. *)
 From Coq Require Import ZArith Lia.
 From CV Require Import Base.Str Base.Utf8 Model.Common Model.Shells Model.JsonParse Model.Action Model.Export Model.Cache
-     Proofs.Export.
+     Base.SortPerm Proofs.Export Proofs.JsonString Proofs.ExportBytes.
 Local Open Scope nat_scope.
 
 Lemma name_eqb_true a b : name_eqb a b = true <-> a = b.
@@ -26,12 +26,32 @@ Lemma lookup_write_other f n e m : name_eqb m n = false -> lookup (write f n e) 
 Proof. intro H. unfold write. simpl. rewrite H. apply lookup_remove_other. exact H. Qed.
 
 Definition norm_inv (r : invoked) : invoked := (norm_meta (fst r), norm_values (snd r)).
+(* what is read back from the bytes written for r: normalised, and every text as Go's encoder
+   leaves it (invalid UTF-8 -> U+FFFD; valid text unchanged) *)
+Definition read_back (r : invoked) : invoked :=
+  (mkMeta (msgs_merge [] (map sanitize (messages (fst r)))) (sanitize (nospace (fst r))) (sanitize (usage (fst r))),
+   map (fun x => strip (san_raw x)) (isort_by value_ltb' (snd r))).
+
+Definition valid_invoked (r : invoked) : Prop :=
+  Forall all_valid (messages (fst r)) /\ all_valid (nospace (fst r)) /\ all_valid (usage (fst r)) /\ Forall valid_raw (snd r).
+Lemma map_id_on {A} (f : A -> A) l : Forall (fun x => f x = x) l -> map f l = l.
+Proof. induction 1 as [|x l Hx Hl IH]; [reflexivity|]. cbn. rewrite Hx, IH. reflexivity. Qed.
+Theorem read_back_valid r : valid_invoked r -> read_back r = norm_inv r.
+Proof.
+  intros (Hm & Hn & Hu & Hv). unfold read_back, norm_inv, norm_meta, norm_values. destruct r as [[ms ns us] vs]. cbn [fst snd messages nospace usage set_messages] in *.
+  rewrite (map_id_on sanitize ms) by (eapply Forall_impl; [|exact Hm]; intros a Ha; apply sanitize_valid; exact Ha).
+  rewrite !sanitize_valid by assumption. f_equal.
+  apply map_ext_in. intros x Hx. apply san_raw_valid.
+  rewrite Forall_forall in Hv. apply Hv. rewrite isort_In in Hx. exact Hx.
+Qed.
 
 Section CacheProofs.
   Variable version : str.
-  (* what C13 establishes for the bytes MarshalJSON prints (tree level proved, byte level
-     checked by correspondence on every run): they import to the normalised completion *)
-  Hypothesis print_imports : forall r, exists e, import (print version r) = IOk e /\ completion_of e = norm_inv r.
+  (* the byte-level round trip (Proofs/ExportBytes.v): the bytes written for r import to read_back r *)
+  Lemma print_imports : forall r, exists e, import (print version r) = IOk e /\ completion_of e = read_back r.
+  Proof.
+    intro r. unfold print. rewrite import_export_bytes. eexists. split; [reflexivity|]. reflexivity.
+  Qed.
 
   Notation step := (step version).
   Notation run := (run version).
@@ -95,7 +115,7 @@ Section CacheProofs.
     step w (OInvoke site (Some ids) k2 t r) = (w', Served false res) ->
     w' = w /\
     exists e, lookup (fs w) (file_name site ids) = Some e /\ fresh w e t /\
-              (forall r0, origin e = Some r0 -> res = norm_inv r0 /\ messages (fst r0) = []).
+              (forall r0, origin e = Some r0 -> res = read_back r0 /\ messages (fst r0) = []).
   Proof.
     intros Hi H. cbn [Cache.step] in H. unfold loadE in H.
     destruct (load w (file_name site ids) t) as [b|] eqn:El.
